@@ -5,12 +5,16 @@
 //                               px.Wrap → value; px.WrapReflectedType → type; IsInstance(type, value);
 //                               Reflector.ReflectTo into a fresh value of the same Go type → reflect.DeepEqual
 //       out = <wrapped value> | <derived type> | inst=<t|f> | back=<go-value|fault> eq=<t|f>
-//   obj <struct-type> <go-value>  (flat structs: modelled; otherwise sent as @obj) register the struct type, wrap the struct →
-//                               object → InitHash; px.New positional and named (each unless ambiguous) → ReflectTo → DeepEqual
+//                               every struct type in the term is registered first, innermost first, with TypeFromReflect +
+//                               AddTypes under the names T::S1, T::S2 … (parent = the type of an embedded first field)
+//   obj <struct-type> <go-value>  register the struct types, wrap the struct → object → InitHash; px.New positional and named
+//                               (each unless ambiguous) → ReflectTo → DeepEqual
 //       out = <init hash> [| pos=ok back=<go-value> eq=<t|f> | pos=reported CODE] [| named=…]
+//   modelled (inModel): nested structs, pointers to structs, slices / arrays / maps of structs, embedded structs (first field =
+//   parent, its attributes promoted; elsewhere = an attribute), tags name=> / value=>; otherwise the op is sent as @refl / @obj
 // ops (implementation only, labelled tests — no model counterpart):
-//   @refl / @obj on types with nested structs, bare interface{} fields …: as above, every struct type registered bottom-up
-//                               with TypeFromReflect under the names T::S<i>
+//   @refl / @obj on struct types outside the model (a bare interface{} field, an embedded pointer, fields shadowing a field of an
+//                               embedded struct, tag forms the driver does not read): as above
 //   @reflraw <go-type> <go-value>   refl without registering the struct types (an unknown struct wraps to a Hash)
 //   @reflanon <go-type> <go-value>  px.WrapReflectedType first (anonymous object types), then refl without registration
 //   @objreg <struct-type> <go-value> every struct type is DECLARED (attributes => {name => derived type, …}; nillable fields and
@@ -21,7 +25,8 @@
 //                               argument would be ambiguous
 //
 // go-type  ::= (int W) | (uint W) | (float 32|64) | string | bool | iface | (slice T) | (map K V) | (ptr T)
-//            | (array N T) | (struct (Name T [xTAG])…)          W ∈ {0,8,16,32,64}; 0 = int / uint
+//            | (array N T) | (struct FIELD…)                    W ∈ {0,8,16,32,64}; 0 = int / uint
+// FIELD    ::= (Name T [xTAG]) | (emb Name T [xTAG])            emb = embedded (reflect.StructField.Anonymous)
 // go-value ::= N | FLOATBITS | xHEX | t | f | nil | (s v…) | (m (k v)…) | (p v) | (a v…) | (st v…) | (i T v)
 //              (floats travel as the IEEE-754 bits of the float64 value; maps are printed sorted by key)
 package c18
@@ -31,6 +36,7 @@ import (
 	"math"
 	"math/rand"
 	"reflect"
+	"regexp"
 	"sort"
 	"strconv"
 	"strings"
@@ -58,6 +64,7 @@ type gfield struct {
 	name string
 	t    *gty
 	tag  string
+	anon bool   // embedded field: (emb Name T [xTAG])
 	dflt string // generator only: the go-value term of the default declared in the tag ("" = none)
 }
 
@@ -110,12 +117,18 @@ func tyOf(e sx.Sexp) *gty {
 	case "struct":
 		t := &gty{kind: "struct"}
 		for _, f := range a {
-			if !f.IsList || len(f.List) < 2 || len(f.List) > 3 || f.List[0].IsList {
+			fl := f.List
+			anon := false
+			if f.IsList && len(fl) > 0 && !fl[0].IsList && fl[0].Atom == "emb" {
+				anon = true
+				fl = fl[1:]
+			}
+			if !f.IsList || len(fl) < 2 || len(fl) > 3 || fl[0].IsList {
 				panic(fmt.Errorf("bad field %s", f))
 			}
-			gf := gfield{name: f.List[0].Atom, t: tyOf(f.List[1])}
-			if len(f.List) == 3 {
-				gf.tag = f.List[2].MustStr()
+			gf := gfield{name: fl[0].Atom, t: tyOf(fl[1]), anon: anon}
+			if len(fl) == 3 {
+				gf.tag = fl[2].MustStr()
 			}
 			t.fields = append(t.fields, gf)
 		}
@@ -139,11 +152,15 @@ func (t *gty) sexp() sx.Sexp {
 	}
 	fs := []sx.Sexp{}
 	for _, f := range t.fields {
-		if f.tag != "" {
-			fs = append(fs, sx.L(sx.A(f.name), f.t.sexp(), sx.Str(f.tag)))
-		} else {
-			fs = append(fs, sx.L(sx.A(f.name), f.t.sexp()))
+		xs := []sx.Sexp{}
+		if f.anon {
+			xs = append(xs, sx.A("emb"))
 		}
+		xs = append(xs, sx.A(f.name), f.t.sexp())
+		if f.tag != "" {
+			xs = append(xs, sx.Str(f.tag))
+		}
+		fs = append(fs, sx.L(xs...))
 	}
 	return sx.T("struct", fs...)
 }
@@ -180,7 +197,7 @@ func (t *gty) rtype() reflect.Type {
 	}
 	fs := make([]reflect.StructField, len(t.fields))
 	for i, f := range t.fields {
-		fs[i] = reflect.StructField{Name: f.name, Type: f.t.rtype()}
+		fs[i] = reflect.StructField{Name: f.name, Type: f.t.rtype(), Anonymous: f.anon}
 		if f.tag != "" {
 			fs[i].Tag = reflect.StructTag(f.tag)
 		}
@@ -667,7 +684,12 @@ func registerStructs(c px.Context, t *gty, seen map[reflect.Type]px.ObjectType) 
 	if t.kind == "struct" {
 		rt := t.rtype()
 		if _, ok := seen[rt]; !ok {
-			ot := c.Reflector().TypeFromReflect("T::S"+strconv.Itoa(len(seen)+1), nil, rt)
+			// the first field, when it is an embedded struct, is the parent (as Reflector.TypeSetFromReflect passes it)
+			var parent px.Type
+			if len(t.fields) > 0 && t.fields[0].anon && t.fields[0].t.kind == "struct" {
+				parent = seen[t.fields[0].t.rtype()]
+			}
+			ot := c.Reflector().TypeFromReflect("T::S"+strconv.Itoa(len(seen)+1), parent, rt)
 			px.AddTypes(c, ot)
 			seen[rt] = ot
 		}
@@ -682,7 +704,7 @@ func refl(c px.Context, t *gty, ve sx.Sexp, register bool) core.Result {
 			if r := notReflectable(t); r != "" {
 				return core.Result{Out: "register=" + k, Pred: "n/a", NonTrivial: true}
 			}
-			return core.Fail("register="+k, "struct-type-fault", oneLine(text))
+			return core.Fail("register="+k, regFailClass(t, text), oneLine(text))
 		}
 	}
 	tags := []string{"k:" + t.kind}
@@ -772,6 +794,42 @@ func refl(c px.Context, t *gty, ve sx.Sexp, register bool) core.Result {
 		return res(out, "FAIL "+instClass(t, gv, true)+" "+ts+" rejects "+ws)
 	}
 	return res(out, "ok")
+}
+
+// regFailClass names the reason the object type of some struct type in t cannot be derived
+func regFailClass(t *gty, text string) string {
+	if strings.Contains(text, "attempts to override") && attrClash(t) {
+		return "embed-attribute-clash"
+	}
+	return "struct-type-fault"
+}
+
+// attrClash: some struct type in t declares an attribute that one of its embedded parents (first field) declares too
+func attrClash(t *gty) bool {
+	if t == nil {
+		return false
+	}
+	if t.kind == "struct" {
+		names := map[string]bool{}
+		for _, f := range attrFields(t) {
+			if names[attrNameOf(f)] {
+				return true
+			}
+			names[attrNameOf(f)] = true
+		}
+		for _, f := range t.fields {
+			if attrClash(f.t) {
+				return true
+			}
+		}
+	}
+	return attrClash(t.key) || attrClash(t.elem)
+}
+
+// embeddedPtrParent: the struct's first field is an embedded POINTER to a struct that is not nil in v: the reflector takes
+// every embedded first field for the parent (InitializerFromTagged: `i == 0 && f.Anonymous`) and gives it no attribute
+func embeddedPtrParent(t *gty, v reflect.Value) bool {
+	return t.kind == "struct" && len(t.fields) > 0 && t.fields[0].anon && t.fields[0].t.kind == "ptr" && !v.Field(0).IsNil()
 }
 
 // nestedStruct: some struct type occurs inside another struct type
@@ -1050,7 +1108,7 @@ func obj(c px.Context, t *gty, ve sx.Sexp) core.Result {
 		if r := notReflectable(t); r != "" {
 			return res("register="+k, "n/a")
 		}
-		return res("register="+k, "FAIL struct-type-fault "+text)
+		return res("register="+k, "FAIL "+regFailClass(t, text)+" "+text)
 	}
 	ot := seen[rt]
 	// struct → object → init hash
@@ -1141,6 +1199,9 @@ func obj(c px.Context, t *gty, ve sx.Sexp) core.Result {
 			if cl == "" {
 				cl = "roundtrip-differs"
 			}
+			if embeddedPtrParent(t, gv) && back.Field(0).IsNil() {
+				cl = "embedded-ptr-parent-dropped"
+			}
 			pred = "FAIL " + cl + " " + encGo(t, gv) + " came back as " + encGo(t, back)
 		}
 	}
@@ -1150,30 +1211,94 @@ func obj(c px.Context, t *gty, ve sx.Sexp) core.Result {
 	return res(out, pred)
 }
 
-// flatStruct: the part of @obj that the Lean model covers — at least one field, field types struct-free and
-// reflectable, no field that is itself an interface{} (it wraps to a Runtime value)
-func flatStruct(t *gty) bool {
-	if t.kind != "struct" || len(t.fields) == 0 {
+// inModel: the shapes the Lean model covers (lean/Pcore/Model/Reflect.lean `Modelled` + `structWF` for every struct type in
+// the term) — reflectable; no struct field that is itself an interface{} (it wraps to a Runtime value); an embedded field is a
+// struct; tags in the form the driver reads with declared defaults of integers, strings, booleans (or pointers to them)
+// that are instances of the field's type; attribute names and Go names distinct over the chain of embedded parents
+func inModel(t *gty) bool {
+	return notReflectable(t) == "" && structsInModel(t)
+}
+
+var tagForm = regexp.MustCompile(`^puppet:"(name=>'[^',"]*'(, value=>(-?[0-9]+|'[^',"]*'|true|false))?|value=>(-?[0-9]+|'[^',"]*'|true|false))"$`)
+
+func structsInModel(t *gty) bool {
+	if t == nil {
+		return true
+	}
+	if !structsInModel(t.key) || !structsInModel(t.elem) {
 		return false
 	}
+	if t.kind != "struct" {
+		return true
+	}
 	for _, f := range t.fields {
-		if f.t.has("struct") || f.t.kind == "iface" || notReflectable(f.t) != "" {
+		if !structsInModel(f.t) || f.t.kind == "iface" || (f.anon && f.t.kind != "struct") {
 			return false
 		}
-		if strings.Contains(f.tag, "value=>") {
-			// modelled declared defaults: integers, strings, booleans (and pointers to them)
-			b := f.t
-			if b.kind == "ptr" {
-				b = b.elem
-			}
-			switch b.kind {
-			case "int", "uint", "string", "bool":
-			default:
-				return false
-			}
+		if f.tag != "" && !tagForm.MatchString(f.tag) {
+			return false
+		}
+		if v := tagItem(f.tag, "value"); v != "" && !dfltInModel(f.t, v) {
+			return false
 		}
 	}
+	names, goNames := map[string]bool{}, map[string]bool{}
+	for _, f := range attrFields(t) {
+		if names[attrNameOf(f)] {
+			return false
+		}
+		names[attrNameOf(f)] = true
+	}
+	for _, n := range promotedNames(t) {
+		if goNames[n] {
+			return false
+		}
+		goNames[n] = true
+	}
 	return true
+}
+
+// promotedNames: every Go field name that FieldByName can see from the struct — its own and, through embedded structs (in any
+// position), theirs; the model demands that they are all distinct (Go resolves a clash by depth or finds the name ambiguous)
+func promotedNames(t *gty) []string {
+	ns := []string{}
+	for _, f := range t.fields {
+		ns = append(ns, f.name)
+		if f.anon && f.t.kind == "struct" {
+			ns = append(ns, promotedNames(f.t)...)
+		}
+	}
+	return ns
+}
+
+// attrFields: the fields that become attributes of the derived object type — those of the embedded parent (first field), then the own
+func attrFields(t *gty) []gfield {
+	if len(t.fields) > 0 && t.fields[0].anon && t.fields[0].t.kind == "struct" {
+		return append(attrFields(t.fields[0].t), t.fields[1:]...)
+	}
+	return t.fields
+}
+
+// dfltInModel: the literal of a `value=>` tag item is an integer / string / boolean that the field's type accepts
+func dfltInModel(t *gty, lit string) bool {
+	if t.kind == "ptr" {
+		t = t.elem
+	}
+	switch t.kind {
+	case "int":
+		i, err := strconv.ParseInt(lit, 10, 64)
+		b := bits(t.w)
+		return err == nil && i >= int64(-1)<<(b-1) && i <= -(int64(-1)<<(b-1) + 1)
+	case "uint":
+		i, err := strconv.ParseInt(lit, 10, 64)
+		b := bits(t.w)
+		return err == nil && i >= 0 && (b == 64 || i <= int64(1)<<b-1)
+	case "string":
+		return strings.HasPrefix(lit, "'") && strings.HasSuffix(lit, "'") && len(lit) >= 2
+	case "bool":
+		return lit == "true" || lit == "false"
+	}
+	return false
 }
 
 // ---- @objreg: declared object types mapped to structs through the implementation registry -------------------------------
@@ -1650,13 +1775,28 @@ func randType(r *rand.Rand, depth int, withStruct bool) *gty {
 		if !withStruct {
 			return &gty{kind: "slice", elem: randType(r, depth-1, withStruct)}
 		}
-		t := &gty{kind: "struct"}
-		n := 1 + r.Intn(3)
-		for i := 0; i < n; i++ {
-			t.fields = append(t.fields, gfield{name: string(rune('A' + i)), t: randType(r, depth-1, withStruct)})
-		}
-		return t
+		return randStruct(r, depth-1, "")
 	}
+}
+
+// randStruct: a struct type with 1–3 fields named <prefix>A, <prefix>B …; sometimes the first field is an embedded struct (the
+// parent: its fields are named <prefix>PA …, so attribute names stay distinct along the chain of parents) and sometimes a later
+// field is an embedded struct (an ordinary attribute)
+func randStruct(r *rand.Rand, depth int, prefix string) *gty {
+	t := &gty{kind: "struct"}
+	if depth > 0 && r.Intn(4) == 0 {
+		t.fields = append(t.fields, gfield{name: "Base" + prefix, anon: true, t: randStruct(r, depth-1, prefix+"P")})
+	}
+	n := 1 + r.Intn(3)
+	for i := 0; i < n; i++ {
+		l := string(rune('A' + i))
+		if depth > 0 && r.Intn(8) == 0 {
+			t.fields = append(t.fields, gfield{name: "Mix" + prefix + l, anon: true, t: randStruct(r, depth-1, prefix+"M"+l)})
+			continue
+		}
+		t.fields = append(t.fields, gfield{name: prefix + l, t: randType(r, depth, true)})
+	}
+	return t
 }
 
 func gen(g *core.G) {
@@ -1664,12 +1804,16 @@ func gen(g *core.G) {
 	nraw := 0
 	emit := func(t *gty, v string) {
 		if t.has("struct") {
-			// structs are not modelled yet: implementation-only test ops
-			g.Emit("@refl " + t.sexp().String() + " " + v)
+			// struct types outside the model (a bare interface{} field, name clashes, …): implementation-only test ops
+			pre := "@"
+			if inModel(t) {
+				pre = ""
+			}
+			g.Emit(pre + "refl " + t.sexp().String() + " " + v)
 			if t.kind == "struct" {
 				g.Emit("@objreg " + t.sexp().String() + " " + v)
-				if flatStruct(t) {
-					g.Emit("obj " + t.sexp().String() + " " + v) // modelled
+				if len(t.fields) > 0 {
+					g.Emit(pre + "obj " + t.sexp().String() + " " + v)
 				} else {
 					g.Emit("@obj " + t.sexp().String() + " " + v)
 				}
@@ -1754,6 +1898,55 @@ func gen(g *core.G) {
 			emit(mt, "(m "+strings.Join(xs, " ")+")")
 		}
 	}
+	// structs: for every scalar type e and every boundary value v of it — S = struct{A e} alone, nested (by value, by pointer,
+	// nil pointer), in a slice / array / map (nil, empty, one element), behind a pointer, as the embedded parent and as an
+	// embedded field that is not the parent; the pointer variant *e of the field with nil
+	for _, e := range leafTypes() {
+		S := &gty{kind: "struct", fields: []gfield{{name: "A", t: e}}}
+		P := &gty{kind: "struct", fields: []gfield{{name: "PA", t: e}}}
+		pS := &gty{kind: "ptr", elem: S}
+		outer := func(ft *gty) *gty { return &gty{kind: "struct", fields: []gfield{{name: "X", t: ft}}} }
+		slS, slpS := &gty{kind: "slice", elem: S}, &gty{kind: "slice", elem: pS}
+		mS := &gty{kind: "map", key: &gty{kind: "string"}, elem: S}
+		child := &gty{kind: "struct", fields: []gfield{{name: "Base", anon: true, t: P}, {name: "A", t: e}}}
+		mix := &gty{kind: "struct", fields: []gfield{{name: "A", t: e}, {name: "Mix", anon: true, t: P}}}
+		emit(outer(pS), "(st nil)")
+		emit(pS, "nil")
+		emit(slS, "nil")
+		emit(slS, "(s)")
+		emit(mS, "nil")
+		emit(mS, "(m)")
+		emit(outer(&gty{kind: "ptr", elem: e}), "(st nil)")
+		emit(outer(slS), "(st nil)")
+		for _, v := range boundary(e) {
+			sv := "(st " + v + ")"
+			emit(S, sv)
+			emit(outer(S), "(st "+sv+")")
+			emit(outer(pS), "(st (p "+sv+"))")
+			emit(pS, "(p "+sv+")")
+			emit(slS, "(s "+sv+")")
+			emit(slpS, "(s (p "+sv+") nil)")
+			emit(&gty{kind: "array", n: 1, elem: S}, "(a "+sv+")")
+			emit(mS, "(m (x6b "+sv+"))")
+			emit(outer(slS), "(st (s "+sv+"))")
+			emit(outer(mS), "(st (m (x6b "+sv+")))")
+			emit(child, "(st "+sv+" "+v+")")
+			emit(mix, "(st "+v+" "+sv+")")
+			emit(outer(&gty{kind: "ptr", elem: e}), "(st (p "+v+"))")
+		}
+	}
+	emit(&gty{kind: "struct"}, "(st)")
+	// embedding outside the model (implementation only): a field that shadows a field of the embedded parent; an embedded
+	// pointer to a struct in the first position
+	{
+		i8, str := &gty{kind: "int", w: 8}, &gty{kind: "string"}
+		base := &gty{kind: "struct", fields: []gfield{{name: "A", t: i8}}}
+		emit(&gty{kind: "struct", fields: []gfield{{name: "Base", anon: true, t: base}, {name: "A", t: str}}}, "(st (st 5) x61)")
+		emit(&gty{kind: "struct", fields: []gfield{{name: "Base", anon: true, t: base}, {name: "B", t: str, tag: `puppet:"name=>'a'"`}}}, "(st (st 5) x61)")
+		pbase := &gty{kind: "ptr", elem: &gty{kind: "struct", fields: []gfield{{name: "PA", t: i8}}}}
+		emit(&gty{kind: "struct", fields: []gfield{{name: "Base", anon: true, t: pbase}, {name: "B", t: str}}}, "(st (p (st 5)) x61)")
+		emit(&gty{kind: "struct", fields: []gfield{{name: "Base", anon: true, t: pbase}, {name: "B", t: str}}}, "(st nil x61)")
+	}
 	emit(&gty{kind: "iface"}, "nil")
 	emit(&gty{kind: "slice", elem: &gty{kind: "iface"}}, "(s (i (int 0) 1) (i string x61) nil)")
 	emit(&gty{kind: "map", key: &gty{kind: "string"}, elem: &gty{kind: "iface"}}, "(m (x61 nil) (x62 (i (int 64) 1)))")
@@ -1772,6 +1965,10 @@ func gen(g *core.G) {
 	for i := 0; i < nTypes/5; i++ {
 		t := &gty{kind: "struct"}
 		n := 1 + g.Rng.Intn(4)
+		if i%3 == 2 {
+			// every third struct has an embedded parent (which may have one itself)
+			t.fields = append(t.fields, gfield{name: "Base", anon: true, t: randStruct(g.Rng, g.Rng.Intn(2), "P")})
+		}
 		for j := 0; j < n; j++ {
 			f := gfield{name: string(rune('A' + j)), t: randType(g.Rng, g.Rng.Intn(depth), j == 1)}
 			if i%2 == 1 && g.Rng.Intn(2) == 0 {
